@@ -721,6 +721,29 @@ func runC09(p *core.Program, r *core.Report) {
 				c.ob("PV2", p.FuncName(fn), "result queue emptied before collecting", p.InstrPos(call), cleared, "the keys are collected into the trie's queue without clearing it first: the result repeats what an earlier call reported")
 			}
 		}
+		// ... and nothing is taken out of it again: on the queue Keys, StartsWith and collect
+		// only Clear (in front of the collection) and Enqueue
+		for _, fn := range []*ssa.Function{fKeys, fSW, ncollect} {
+			if fn == nil {
+				continue
+			}
+			for _, in := range path.Instrs(fn) {
+				ci, ok := in.(ssa.CallInstruction)
+				if !ok || !ci.Common().IsInvoke() || !isLoadOfField(ci.Common().Value, "Trie", "q") {
+					continue
+				}
+				m := ci.Common().Method.Name()
+				okM := m == "Enqueue" || (m == "Clear" && fn != ncollect)
+				if m == "Clear" && okM && ncollect != nil {
+					for _, call := range callsTo(fn, ncollect) {
+						if path.CanReachWithout(call.(ssa.Instruction), func(i ssa.Instruction) bool { return i == in }, func(ssa.Instruction) bool { return false }) {
+							okM = false
+						}
+					}
+				}
+				c.ob("PV2", p.FuncName(fn), "nothing taken out of the result queue", p.InstrPos(in), okM, "the queue the keys are handed out in is touched by "+m+" in a place other than the Clear in front of the collection: keys that were collected are missing from the answer")
+			}
+		}
 		for _, call := range callsTo(fPut, nput) {
 			a := call.Common().Args
 			bc, isC := path.BoolConst(a[5])
